@@ -79,7 +79,20 @@ type c07Snapshot struct {
 }
 
 func (w *c07World) snapshot() c07Snapshot {
-	d := datastore.VerifDump(append([]string{"\x00none"}, w.roots...)...)
+	return w.snapshotOf(datastore.VerifDump(append([]string{"\x00none"}, w.roots...)...))
+}
+
+// reloaded is the snapshot a restarted server would have: the start-up loading path run into a second, read-only
+// manager on the metadata store as it is now (overlay helper; the live manager is untouched, nothing is written).
+func (w *c07World) reloaded() (c07Snapshot, error) {
+	d, err := datastore.VerifReloadDump(append([]string{"\x00none"}, w.roots...)...)
+	if err != nil {
+		return c07Snapshot{}, err
+	}
+	return w.snapshotOf(d), nil
+}
+
+func (w *c07World) snapshotOf(d datastore.VerifState) c07Snapshot {
 	s := c07Snapshot{Dump: d, Info: map[string]json.RawMessage{}}
 	for ri, root := range w.roots {
 		for _, r := range d.Repos {
@@ -318,10 +331,16 @@ func (w *c07World) exec(op c07Op, s c07Snapshot) (code int, desc string) {
 				}
 				time.Sleep(250 * time.Microsecond)
 			}
+			// ... and until that goroutine has also saved the repo (histories are sequences of requests on an idle server)
+			vsrv.Quiesce()
 		}
 		return apiErr(fmt.Sprintf("DeleteDataByName(n%d,%s)", op.N, op.A), err)
 	case "delrepo":
-		return apiErr(fmt.Sprintf("DeleteRepo(n%d,%q)", op.N, op.A), datastore.DeleteRepo(dvid.UUID(node(op.N)), op.A))
+		err := datastore.DeleteRepo(dvid.UUID(node(op.N)), op.A)
+		if err == nil {
+			vsrv.Quiesce() // asynchronous deletion of the repo's instances
+		}
+		return apiErr(fmt.Sprintf("DeleteRepo(n%d,%q)", op.N, op.A), err)
 	}
 	return 400, "unknown op"
 }
@@ -535,6 +554,7 @@ type c07Job struct {
 	Path     []c07Op `json:"path"`
 	Thorough bool    `json:"thorough"`
 	MaxNodes int     `json:"max_nodes"`
+	Reload   bool    `json:"reload,omitempty"` // C03 mode: after every state-changing request compare the live manager with a read-only reload
 }
 
 type c07Succ struct {
@@ -557,6 +577,7 @@ type c07Result struct {
 	Transitions int       `json:"transitions"`
 	Rejected    int       `json:"rejected"`
 	Panics      int       `json:"panics"`
+	Reloads     int       `json:"reloads,omitempty"`
 	Err         string    `json:"err,omitempty"`
 }
 
@@ -572,6 +593,7 @@ func c07Replay(path []c07Op) (*c07World, c07Snapshot, error) {
 				datastore.DeleteRepo(dvid.UUID(root), "secret")
 			}
 		}
+		vsrv.Quiesce()
 	}
 	c07WorldSeq++
 	w := &c07World{tag: fmt.Sprintf("%04x%06x", c07WorkerID()&0xffff, c07WorldSeq&0xffffff)}
@@ -643,6 +665,25 @@ func c07Worker(args []string) int {
 					res.Viol = append(res.Viol, c07Viol{"rejected-but-changed:" + op.K + ":" + op.A, fmt.Sprintf("%s was refused but the state changed:\n--- before\n%s--- after\n%s%s", desc, bc, ac, c07GlobalDiff(before, after)), path})
 				}
 			}
+			if j.Reload && (ac != bc || ag != bg) {
+				res.Reloads++
+				if rs, err := w.reloaded(); err != nil {
+					res.Viol = append(res.Viol, c07Viol{"reload:load-fails:after-" + op.K, fmt.Sprintf("metadata written by %s cannot be loaded: %v", desc, err), path})
+				} else {
+					if class, what := c07ReloadDiff(w, after, rs); class != "" {
+						res.Viol = append(res.Viol, c07Viol{"reload:" + class + ":after-" + op.K + c07Outcome(code), what + " [after " + desc + "]", path})
+					}
+					brokenLive := map[string]bool{}
+					for _, iv := range c07Invariants(after, w) {
+						brokenLive[iv[0]] = true
+					}
+					for _, iv := range c07Invariants(rs, w) {
+						if !brokenLive[iv[0]] {
+							res.Viol = append(res.Viol, c07Viol{"reload:invariant:" + iv[0] + ":after-" + op.K, "reloaded metadata: " + iv[1] + " [after " + desc + "]", path})
+						}
+					}
+				}
+			}
 			if ac != bc || ag != bg {
 				if ac != bc {
 					res.Succ = append(res.Succ, c07Succ{Op: op, Canon: ac, Nodes: len(after.Nodes), Repos: len(w.roots), Code: code})
@@ -654,6 +695,46 @@ func c07Worker(args []string) int {
 		b, _ := json.Marshal(res)
 		return string(b)
 	})
+}
+
+// c07ReloadDiff compares the live manager with the reloaded one: DAG, flags, notes, logs, instances, branch heads,
+// identifier maps and the three id counters (mutation ids are excluded: documented to jump forward).
+func c07ReloadDiff(w *c07World, live, re c07Snapshot) (class, what string) {
+	lc, rc := strings.Split(live.canon(w), "\n"), strings.Split(re.canon(w), "\n")
+	for i := 0; i < len(lc) || i < len(rc); i++ {
+		var a, b string
+		if i < len(lc) {
+			a = lc[i]
+		}
+		if i < len(rc) {
+			b = rc[i]
+		}
+		if a == b {
+			continue
+		}
+		line := a
+		if line == "" {
+			line = b
+		}
+		class = "node"
+		switch {
+		case strings.Contains(line, " heads "):
+			class = "branch-heads"
+		case strings.Contains(line, " instances=") || strings.Contains(line, " deleted"):
+			class = "repo"
+		}
+		return class, fmt.Sprintf("a restart would change the repo metadata:\n--- live\n%s\n--- reloaded\n%s\n(first difference: %q vs %q)", strings.Join(lc, "\n"), strings.Join(rc, "\n"), a, b)
+	}
+	live.Dump.OtherBranchEntries, re.Dump.OtherBranchEntries = 0, 0 // entries of other worlds' repos (outside the dump's prefixes)
+	if lg, rg := live.global(), re.global(); lg != rg {
+		return "maps", "a restart would change the identifier maps: " + c07GlobalDiff(live, re) + c07GlobalDiff(re, live)
+	}
+	l, r := live.Dump, re.Dump
+	if l.NextRepoID != r.NextRepoID || l.NextVersionID != r.NextVersionID || l.NextInstance != r.NextInstance {
+		return "counters", fmt.Sprintf("a restart would change the id counters: live repo/version/instance = %d/%d/%d, reloaded = %d/%d/%d",
+			l.NextRepoID, l.NextVersionID, l.NextInstance, r.NextRepoID, r.NextVersionID, r.NextInstance)
+	}
+	return "", ""
 }
 
 func c07Outcome(code int) string {
@@ -696,15 +777,30 @@ func runC07(c *vlib.Ctx) {
 		// reporting the depth completed and how much of the next level was expanded
 		c.Deadline = time.Now().Add(35 * time.Minute)
 	}
+	states, transitions, rejected, _ := c07BFS(c, depth, maxNodes, false)
+	c.Set("states", states)
+	c.Set("transitions", transitions)
+	c.Set("rejected_requests", rejected)
+	c.Set("traces_validated_against_impl", transitions)
+	c.Set("bound", fmt.Sprintf("BFS depth %d from a one-repo world; states with more than %d nodes or 2 repos are checked but not expanded", depth, maxNodes))
+	c.Sample(map[string]interface{}{"history": "newrepo(plain) commit(n0) branch(n0,b1,none) merge([0 1]) -> refused; state compared before/after"})
+	c.Set("rule", "state = canonical form of the world's repos (nodes renamed by creation order: parents, children, lock, branch, note, log length; instances; branch heads); transition = one real request; invariants: one root, acyclic, parent/child mirror, uuid/version maps inverse and complete, committed parents only, named branches are single chains with the recorded head at the leaf, refused request => manager state unchanged")
+	c.Assume("each worker process explores its histories sequentially on its own store, so a change of the manager dump between two snapshots is caused by the one request in between")
+}
+
+// c07BFS is the breadth-first exploration of repo-level request histories. With reload=false it is the C07 check
+// (violations = broken invariants / refused-but-changed). With reload=true it serves C03: the same histories, but the
+// only violations reported are differences between the live repo manager and a read-only reload of the stored metadata
+// after every state-changing request (and invariants broken only in the reloaded copy).
+func c07BFS(c *vlib.Ctx, depth, maxNodes int, reload bool) (states, transitions, rejected, reloads int64) {
 	type st struct{ path []c07Op }
 	seen := map[string]bool{}
 	frontier := []st{{path: []c07Op{{K: "newrepo", A: "plain"}}}}
-	var states, transitions, rejected int64
 	states = 1
 	for d := 1; d <= depth && len(frontier) > 0; d++ {
 		jobs := make([]string, len(frontier))
 		for i, f := range frontier {
-			b, _ := json.Marshal(c07Job{Path: f.path, Thorough: c.Thorough(), MaxNodes: maxNodes})
+			b, _ := json.Marshal(c07Job{Path: f.path, Thorough: c.Thorough(), MaxNodes: maxNodes, Reload: reload})
 			jobs[i] = string(b)
 		}
 		// a fixed stride order over the level, so that a level cut short by the budget is sampled evenly, not by prefix
@@ -759,8 +855,12 @@ func runC07(c *vlib.Ctx) {
 			}
 			transitions += int64(res.Transitions)
 			rejected += int64(res.Rejected)
+			reloads += int64(res.Reloads)
 			c.Eval(int64(res.Transitions))
 			for _, v := range res.Viol {
+				if reload != strings.HasPrefix(v.Class, "reload:") {
+					continue
+				}
 				c.Violate(v.Class, v.What+" | history: "+fmt.Sprint(v.Path), map[string]interface{}{"history": v.Path})
 			}
 			for _, su := range res.Succ {
@@ -776,19 +876,16 @@ func runC07(c *vlib.Ctx) {
 				}
 			}
 		}
-		c.Set(fmt.Sprintf("frontier_depth_%d", d), len(frontier))
+		if reload {
+			c.Set(fmt.Sprintf("dagreload_frontier_depth_%d", d), len(frontier))
+		} else {
+			c.Set(fmt.Sprintf("frontier_depth_%d", d), len(frontier))
+		}
 		frontier = next
 		if c.OverBudget() {
 			c.Cap(fmt.Sprintf("time budget reached after completing depth %d", d))
 			break
 		}
 	}
-	c.Set("states", states)
-	c.Set("transitions", transitions)
-	c.Set("rejected_requests", rejected)
-	c.Set("traces_validated_against_impl", transitions)
-	c.Set("bound", fmt.Sprintf("BFS depth %d from a one-repo world; states with more than %d nodes or 2 repos are checked but not expanded", depth, maxNodes))
-	c.Sample(map[string]interface{}{"history": "newrepo(plain) commit(n0) branch(n0,b1,none) merge([0 1]) -> refused; state compared before/after"})
-	c.Set("rule", "state = canonical form of the world's repos (nodes renamed by creation order: parents, children, lock, branch, note, log length; instances; branch heads); transition = one real request; invariants: one root, acyclic, parent/child mirror, uuid/version maps inverse and complete, committed parents only, named branches are single chains with the recorded head at the leaf, refused request => manager state unchanged")
-	c.Assume("each worker process explores its histories sequentially on its own store, so a change of the manager dump between two snapshots is caused by the one request in between")
+	return
 }
